@@ -355,7 +355,12 @@ def build(spec, bus=None, script=True, system=None, known=None):
         elif k == 'sink':
             d = Sink(name=i, upstream=ups, cycle_time=it.get('ct', 0), collect_parts=it.get('collect', False))
         elif k == 'group':
-            g = Group(i, [w.devs[x] for x in it['members']])
+            kw = {}
+            if it.get('inputs'):
+                kw['input_override'] = [w.devs[x] for x in it['inputs']]
+            if it.get('outputs'):
+                kw['output_override'] = [w.devs[x] for x in it['outputs']]
+            g = Group(i, [w.devs[x] for x in it['members']], **kw)
             w.groups[i] = g
             continue
         elif k == 'path':
